@@ -384,7 +384,8 @@ def run(ctx):
         from vlib import witness
         out.append(witness.rule("C16", ['OptionalNeedsOption', 'OptionalNullableNeedsOption', 'UnknownKeysRejected', 'IncompatibleCombinationsRejected', 'UnsupportedItemRejected', 'UnusualIdentifiersExpand', 'DefaultedGenericsExpand', 'AllSkippedExpands', 'EveryMentionedParameterIsBounded', 'UnusualGenericsExpand', 'PreludeNamesNotCaptured'], "C16.R6"))
     out.append(X.type_param_walker_rule(ctx.mir("default")["ts_rs_macros"], "C16"))
-    out.append(T.empty_repetition_rule(ctx.syn, "C16"))
+    from rules import field_rules as F
+    out.append(F.empty_repetition_rule(ctx.mir("default")["ts_rs_macros"], "C16"))
     out.append(T.export_test_params_rule(ctx.syn, "C16"))
     out.append(X.where_clause_rule(ctx.mir("default")["ts_rs_macros"], "C16"))
     out.append(T.template_hygiene_rule(ctx.syn, "C16"))
